@@ -2,8 +2,11 @@
 // session discipline; silence after Remove).
 //
 // A scenario is plain data: retry parameters, 1-3 targets each with a script
-// of connection attempts, and a list of external events (Remove, Reconnect,
-// Add) at generated virtual instants. It is executed against the real
+// of connection attempts (outcome, timing, and the shape of the error values
+// the doubles report: plain, wrapped, or carrying a gRPC status as a real
+// transport does), and a list of external events (Remove, Reconnect, Add) at
+// generated virtual instants. The long part (long_scenario.go) generates the
+// same data for targets that fail for hours and for retry delays of up to 2 h. It is executed against the real
 // manager.Manager inside a testing/synctest bubble with an in-memory
 // ConnectionManager and an in-memory Subscribe stream (installed through the
 // verif-tagged hook manager.VerifSetSubscribeClient); everything the manager
@@ -35,6 +38,64 @@ type Attempt struct {
 	Msgs        []Msg  `json:"msgs,omitempty"`
 	End         string `json:"end"`                    // error | eof | silence (Recv blocks until its context ends)
 	EndDelayMs  int    `json:"end_delay_ms,omitempty"` // silence before the terminal error / EOF
+	// Errs is the shape of the error VALUES the attempt's dial, stream constructor,
+	// Send and Recv return when they are cancelled or scripted to fail (errKinds,
+	// shapeErr in run.go): plain Go errors, errors carrying a gRPC status the way a
+	// real transport reports them, and wrapped ones.
+	Errs string `json:"errs,omitempty"`
+	// Repeat: the attempt is scripted Repeat more times in a row (long failing
+	// streaks stay short data and shrink to a number).
+	Repeat int `json:"repeat,omitempty"`
+}
+
+// errKinds are the values of Attempt.Errs / Target.Errs.
+//
+//	""              plain Go errors: ctx.Err() on cancellation, errors.New for scripted failures
+//	wrapped         the same, wrapped with %w
+//	grpc            what a real gRPC client returns: a cancelled or expired context as status Canceled /
+//	                DeadlineExceeded ("rpc error: code = Canceled desc = context canceled"), a scripted
+//	                failure as status Unavailable
+//	grpc-wrapped    the same, wrapped with %w (status.Code sees through the wrapping)
+//	grpc-canceled   every failure, scripted ones too, carries status Canceled (a proxy relaying a cancellation)
+//	grpc-deadline   every failure carries status DeadlineExceeded
+//
+// A clean end of stream is always the bare io.EOF, as with gRPC.
+var errKinds = []string{"", "wrapped", "grpc", "grpc-wrapped", "grpc-canceled", "grpc-deadline"}
+
+func validErrKind(k string) bool {
+	for _, e := range errKinds {
+		if e == k {
+			return true
+		}
+	}
+	return false
+}
+
+// maxScriptLen bounds the attempts a script covers once repeats are expanded
+// (identities of update notifications encode the attempt number below 1000).
+const maxScriptLen = 900
+
+// scriptLen is the number of attempts the script covers (repeats expanded).
+func scriptLen(atts []Attempt) int {
+	n := 0
+	for i := range atts {
+		n += 1 + atts[i].Repeat
+	}
+	return n
+}
+
+// scriptAt is the scripted outcome of attempt number n (repeats expanded).
+func scriptAt(atts []Attempt, n int) (Attempt, bool) {
+	if n < 0 {
+		return Attempt{}, false
+	}
+	for i := range atts {
+		if n <= atts[i].Repeat {
+			return atts[i], true
+		}
+		n -= 1 + atts[i].Repeat
+	}
+	return Attempt{}, false
 }
 
 // Target is one configured target.
@@ -42,6 +103,7 @@ type Target struct {
 	Addr     int       `json:"addr"`           // index of its (single) address; equal indices share an address
 	Meta     string    `json:"meta,omitempty"` // value of meta["receive_timeout"]; "" = key absent
 	Attempts []Attempt `json:"attempts,omitempty"`
+	Errs     string    `json:"errs,omitempty"` // error values (errKinds) of the attempts made once the script is exhausted
 }
 
 // Event is one external call made by the harness goroutine.
@@ -74,13 +136,17 @@ type Scenario struct {
 
 const ghost = "ghost"
 
+// maxDelayMs bounds every configured or generated duration of a scenario
+// (virtual time is free; the bound only keeps the arithmetic far from overflow).
+const maxDelayMs = 24 * 3600 * 1000
+
 func tname(i int) string { return fmt.Sprintf("t%d", i) }
 
 func ms(n int) time.Duration { return time.Duration(n) * time.Millisecond }
 
 // validate bounds a (replayed) scenario; generated ones satisfy it by construction.
 func (sc *Scenario) validate() error {
-	if sc.BaseMs < 1 || sc.MaxMs < sc.BaseMs || sc.MaxMs > 600000 {
+	if sc.BaseMs < 1 || sc.MaxMs < sc.BaseMs || sc.MaxMs > maxDelayMs {
 		return fmt.Errorf("retry delays out of range: base %d max %d", sc.BaseMs, sc.MaxMs)
 	}
 	if sc.RandPct < 0 || sc.RandPct > 90 {
@@ -89,7 +155,7 @@ func (sc *Scenario) validate() error {
 	if len(sc.Targets) < 1 || len(sc.Targets) > 3 {
 		return fmt.Errorf("want 1-3 targets, have %d", len(sc.Targets))
 	}
-	if sc.RecvTimeoutMs < 0 || sc.DialTimeoutMs < 0 || sc.TailMs < 0 || sc.TailMs > 3600000 {
+	if sc.RecvTimeoutMs < 0 || sc.DialTimeoutMs < 0 || sc.TailMs < 0 || sc.TailMs > 7*maxDelayMs {
 		return fmt.Errorf("negative or excessive duration")
 	}
 	for i, tg := range sc.Targets {
@@ -98,6 +164,9 @@ func (sc *Scenario) validate() error {
 		}
 		if len(tg.Attempts) > 64 {
 			return fmt.Errorf("target %d: too many attempts", i)
+		}
+		if !validErrKind(tg.Errs) {
+			return fmt.Errorf("target %d: error kind %q", i, tg.Errs)
 		}
 		for j, a := range tg.Attempts {
 			switch a.Dial {
@@ -118,6 +187,12 @@ func (sc *Scenario) validate() error {
 			if a.DialDelayMs < 0 || a.EndDelayMs < 0 || len(a.Msgs) > 64 {
 				return fmt.Errorf("target %d attempt %d: bad delay / too many messages", i, j)
 			}
+			if !validErrKind(a.Errs) {
+				return fmt.Errorf("target %d attempt %d: error kind %q", i, j, a.Errs)
+			}
+			if a.Repeat < 0 || a.Repeat > maxScriptLen {
+				return fmt.Errorf("target %d attempt %d: repeat %d", i, j, a.Repeat)
+			}
 			for k, m := range a.Msgs {
 				switch m.Kind {
 				case "update", "sync", "error", "nil":
@@ -128,6 +203,9 @@ func (sc *Scenario) validate() error {
 					return fmt.Errorf("target %d attempt %d msg %d: negative duration", i, j, k)
 				}
 			}
+		}
+		if scriptLen(tg.Attempts) > maxScriptLen {
+			return fmt.Errorf("target %d: the script covers %d attempts (> %d)", i, scriptLen(tg.Attempts), maxScriptLen)
 		}
 	}
 	if sc.anyRecvTimeout() && sc.anySlowCallback() {
@@ -149,7 +227,7 @@ func (sc *Scenario) validate() error {
 		default:
 			return fmt.Errorf("event %d: kind %q", i, e.Kind)
 		}
-		if e.Target < 0 || e.Target >= len(sc.Targets) || e.AfterMs < 0 || e.AfterMs > 3600000 {
+		if e.Target < 0 || e.Target >= len(sc.Targets) || e.AfterMs < 0 || e.AfterMs > maxDelayMs {
 			return fmt.Errorf("event %d: target %d after %d", i, e.Target, e.AfterMs)
 		}
 	}
@@ -200,6 +278,7 @@ type delayProfile struct{ base, max int }
 var delayProfiles = []delayProfile{
 	{1000, 60000}, {1000, 60000}, {1000, 60000}, // production values
 	{1000, 3000}, {500, 1500}, {100, 1000}, {2000, 10000}, {1000, 1000},
+	{1200000, 7200000}, {3600000, 3600000}, // an operator's slow retry: 20 min growing to 2 h; a constant hour
 }
 
 var (
@@ -218,6 +297,8 @@ var (
 	endKinds    = []string{"error", "error", "error", "eof", "eof", "silence", "silence", "silence"}
 	randPcts    = []int{0, 0, 0, 0, 0, 0, 0, 0, 50, 20}
 	tailFactors = []int{0, 0, 1, 5, 11, 11, 25, 25, 35} // tenths of the retry bound
+	// error values: plain ones as often as the shapes a gRPC transport produces
+	errKindsGen = []string{"", "", "", "", "wrapped", "grpc", "grpc", "grpc", "grpc-wrapped", "grpc-canceled", "grpc-deadline"}
 )
 
 func genMsg(t *rapid.T) Msg {
@@ -231,6 +312,7 @@ func genMsg(t *rapid.T) Msg {
 
 func genAttempt(t *rapid.T) Attempt {
 	a := Attempt{Dial: rapid.SampledFrom(dialKinds).Draw(t, "dial")}
+	a.Errs = rapid.SampledFrom(errKindsGen).Draw(t, "errs")
 	if a.Dial != "hang" {
 		a.DialDelayMs = rapid.SampledFrom(dialDelays).Draw(t, "dial-delay")
 	}
@@ -268,6 +350,7 @@ func genScenario(t *rapid.T) *Scenario {
 		tg.Addr = rapid.IntRange(0, n-1).Draw(t, "addr")
 		tg.Meta = rapid.SampledFrom(metas).Draw(t, "meta")
 		tg.Attempts = rapid.SliceOfN(rapid.Custom(genAttempt), 0, 6).Draw(t, "attempts")
+		tg.Errs = rapid.SampledFrom(errKindsGen).Draw(t, "errs")
 		sc.Targets = append(sc.Targets, tg)
 	}
 	sc.Events = rapid.SliceOfN(rapid.Custom(func(t *rapid.T) Event {
